@@ -36,7 +36,10 @@ fn main() {
         "c04" => Box::new(fvh::c04::C04 {
             max_len: args.p_u64("max_len", 2048) as usize,
         }),
-        "c05" => Box::new(fvh::c05::C05::new(args.p_u64("max_size", 3000) as usize)),
+        "c05" => Box::new(fvh::c05::C05::new(
+            args.p_u64("max_size", 3000) as usize,
+            args.p_bool("quiet"),
+        )),
         "c10" => Box::new(fvh::c10::C10 {
             mib: args.p_u64("mib", 8),
         }),
